@@ -164,15 +164,25 @@ struct Inst: IInst {
             case 3: return acquire(obj, tid, o[1], [&] { return dg.try_lock_shared(); });
             case 4:
                 if constexpr (mutex_traits<M>::timed) {
-                    return acquire(obj, tid, o[1], [&] { return dg.try_lock_shared_for(std::chrono::milliseconds(1)); });
+                    {
+                    // optional third argument (ignored by the model): 1 = zero duration, 2 = negative duration
+                    const long z = o.size() > 2 ? o[2] : 0;
+                    const auto d = std::chrono::milliseconds(z == 1 ? 0 : (z == 2 ? -5 : 1));
+                    return acquire(obj, tid, o[1], [&] { return dg.try_lock_shared_for(d); });
+                }
                 } else {
                     return -1;
                 }
             case 5:
                 if constexpr (mutex_traits<M>::timed) {
-                    return acquire(obj, tid, o[1], [&] {
-                        return dg.try_lock_shared_until(std::chrono::steady_clock::now() + std::chrono::milliseconds(1));
-                    });
+                    {
+                    // optional third argument (ignored by the model): 1 = default-constructed (epoch) deadline, 2 = now - 1 h
+                    const long z = o.size() > 2 ? o[2] : 0;
+                    const auto now = std::chrono::steady_clock::now();
+                    const auto tp = z == 1 ? std::chrono::steady_clock::time_point{}
+                                           : (z == 2 ? now - std::chrono::hours(1) : now + std::chrono::milliseconds(1));
+                    return acquire(obj, tid, o[1], [&] { return dg.try_lock_shared_until(tp); });
+                }
                 } else {
                     return -1;
                 }
